@@ -24,10 +24,29 @@
 (*    pairs (lid, rid) whose keys are non-null and satisfy the predicate,  *)
 (*    plus each unmatched left row padded for left / full, plus each       *)
 (*    unmatched right row padded for full - each exactly once.             *)
+(*  - "win": a table (rid, k, v, p) for EVERY sequence of ordering keys k  *)
+(*    over {null, 1, 2} up to WMaxLen rows (all tie and null patterns),    *)
+(*    v = rid (optionally null in row 2), p = rid mod 2; one window        *)
+(*    function (row_number, rank, dense_rank, shift by 1 / -1, cum_sum)    *)
+(*    with arrange= k in every combination of descending and nulls_first / *)
+(*    nulls_last, with and without partition_by= p.  Expected (C05): rank  *)
+(*    and dense_rank are functions of the keys; row_number, shift and      *)
+(*    cum_sum are determined up to the order within tie classes, so the    *)
+(*    result must be the one of SOME total order that sorts the partition  *)
+(*    by the keys (the specification of the pipelines declares these cases *)
+(*    UNDEF and skips them; here they are judged).                         *)
+(*  - "agg": a table (rid, g, v) for EVERY sequence of (group key, value)  *)
+(*    pairs over {null, 1, 2} x {null, -1, 2} up to AMaxLen rows; one      *)
+(*    aggregate (sum, min, max, mean, count, len = count()) used in a      *)
+(*    grouped summarize, an ungrouped summarize, or in mutate with         *)
+(*    partition_by= g.  Expected (C04): null keys form one group; the      *)
+(*    aggregate ranges over the non-null values of the group; sum / min /  *)
+(*    max / mean of no values is null, count of no values is 0; mean is    *)
+(*    compared as an exact fraction.                                       *)
 (***************************************************************************)
-EXTENDS Integers, Sequences, FiniteSets, TLC, Json, IOUtils
+EXTENDS ValuesCore, Json, IOUtils         \* ValuesCore: NULL and Before1, the order of arrange / arrange=
 
-CONSTANTS Mode, Ns, Ks, Sizes, UCols, JKeys, JMaxLen      \* JKeys: key values (0 stands for NULL), JMaxLen: rows per side
+CONSTANTS Mode, GenVerbs, Ns, Ks, Sizes, UCols, JKeys, JMaxLen, WMaxLen, AMaxLen      \* GenVerbs: which families "gen" enumerates      \* JKeys: key values (0 stands for NULL), JMaxLen: rows per side
 
 SeqSet(s) == {s[i] : i \in DOMAIN s}
 Perms(S) == {p \in [1..Cardinality(S) -> S] : \A i, j \in 1..Cardinality(S) : i # j => p[i] # p[j]}
@@ -56,6 +75,83 @@ JudgeJoin(c, out, err) ==
          IF Len(out) # Cardinality(e) THEN "row-count"
          ELSE IF {out[i] : i \in DOMAIN out} = e THEN "ok" ELSE "rows"
 
+WinKeySeqs == UNION {[1..m -> {99, 1, 2}] : m \in 0..WMaxLen}        \* 99 stands for NULL
+WinConfigs == {[verb |-> "win", keys |-> ks, fn |-> f, desc |-> d, nl |-> nl, part |-> pt, vnull |-> vn] :
+                  ks \in WinKeySeqs, f \in {"row_number", "rank", "dense_rank", "shift1", "shiftm1", "cum_sum"},
+                  d \in BOOLEAN, nl \in {"first", "last"}, pt \in BOOLEAN, vn \in BOOLEAN}
+
+Nv(x) == IF x = 99 THEN NULL ELSE x
+RECURSIVE RunSumSeq(_, _)
+RunSumSeq(vals, pos) ==      \* cum_sum: nulls are skipped; null as long as no non-null value has been seen
+    IF pos = 0 THEN NULL
+    ELSE LET prev == RunSumSeq(vals, pos - 1) IN
+         IF vals[pos] = NULL THEN prev ELSE IF prev = NULL THEN vals[pos] ELSE prev + vals[pos]
+JudgeWin(c, out, err) ==
+    IF err # "" THEN "unexpected-error"
+    ELSE IF Len(out) # Len(c.keys) THEN "row-count"
+    ELSE
+    LET n == Len(c.keys)
+        K(i) == Nv(c.keys[i])
+        V(i) == IF c.vnull /\ i = 2 THEN NULL ELSE i
+        O(i) == Nv(out[i])
+        Bef(i, j) == Before1("int", K(i), K(j), c.desc, c.nl)
+        Parts == IF c.part THEN {{i \in 1..n : i % 2 = r} : r \in {0, 1}} \ {{}} ELSE {1..n} \ {{}}
+        Sorted(s) == \A x, y \in DOMAIN s : x < y => ~Bef(s[y], s[x])
+        Orders(P) == {s \in Perms(P) : Sorted(s)}
+        RunSum(s, pos) == RunSumSeq([q \in DOMAIN s |-> V(s[q])], pos)
+        okPart(P) ==
+            CASE c.fn = "rank" -> \A i \in P : O(i) = 1 + Cardinality({j \in P : Bef(j, i)})
+              [] c.fn = "dense_rank" -> \A i \in P : O(i) = 1 + Cardinality({K(j) : j \in {j \in P : Bef(j, i)}})
+              [] c.fn = "row_number" -> \E s \in Orders(P) : \A pos \in DOMAIN s : O(s[pos]) = pos
+              [] c.fn = "shift1" -> \E s \in Orders(P) : \A pos \in DOMAIN s : O(s[pos]) = (IF pos - 1 >= 1 THEN V(s[pos - 1]) ELSE NULL)
+              [] c.fn = "shiftm1" -> \E s \in Orders(P) : \A pos \in DOMAIN s : O(s[pos]) = (IF pos + 1 <= Len(s) THEN V(s[pos + 1]) ELSE NULL)
+              [] c.fn = "cum_sum" -> \E s \in Orders(P) : \A pos \in DOMAIN s : O(s[pos]) = RunSum(s, pos)
+    IN IF \A P \in Parts : okPart(P) THEN "ok" ELSE "values"
+
+AggRows == {<<k, v>> : k \in {99, 1, 2}, v \in {99, -1, 2}}
+AggSeqs == UNION {[1..m -> AggRows] : m \in 0..AMaxLen}
+AggConfigs == {[verb |-> "agg", rows |-> rs, op |-> o, mode |-> md] :
+                  rs \in AggSeqs, o \in {"sum", "min", "max", "mean", "count", "len"}, md \in {"grouped", "ungrouped", "window"}}
+
+RECURSIVE SumSeq(_)
+SumSeq(s) == IF s = <<>> THEN 0 ELSE Head(s) + SumSeq(Tail(s))
+RECURSIVE MinSeq(_)
+MinSeq(s) == IF Len(s) = 1 THEN s[1] ELSE MinI(Head(s), MinSeq(Tail(s)))
+RECURSIVE MaxSeq(_)
+MaxSeq(s) == IF Len(s) = 1 THEN s[1] ELSE MaxI(Head(s), MaxSeq(Tail(s)))
+
+(* the aggregate of the rows I (a set of row numbers) of configuration c; a mean is the pair <<sum, count>> (compared as a fraction) *)
+AggOf(c, I) ==
+    LET idx == SelectSeq([i \in 1..Len(c.rows) |-> i], LAMBDA i : i \in I /\ c.rows[i][2] # 99)
+        vs == [q \in DOMAIN idx |-> c.rows[idx[q]][2]]
+    IN CASE c.op = "len" -> Cardinality(I)
+         [] c.op = "count" -> Len(vs)
+         [] vs = <<>> -> NULL
+         [] c.op = "sum" -> SumSeq(vs)
+         [] c.op = "min" -> MinSeq(vs)
+         [] c.op = "max" -> MaxSeq(vs)
+         [] c.op = "mean" -> <<SumSeq(vs), Len(vs)>>
+
+SameAgg(c, got, want) ==      \* got: 99 = null; a mean is recorded as <<numerator, denominator>>, null as <<0, 0>>
+    IF c.op = "mean" THEN (IF want = NULL THEN got = <<0, 0>> ELSE got[2] # 0 /\ got[1] * want[2] = want[1] * got[2])
+    ELSE IF want = NULL THEN got = 99
+    ELSE got = want
+
+JudgeAgg(c, out, err) ==
+    IF err # "" THEN "unexpected-error"
+    ELSE
+    LET n == Len(c.rows)
+        G(k) == {i \in 1..n : c.rows[i][1] = k}
+        keys == {c.rows[i][1] : i \in 1..n}
+    IN CASE c.mode = "ungrouped" ->      \* one row, also for an empty table
+              IF Len(out) # 1 THEN "row-count" ELSE IF SameAgg(c, out[1][2], AggOf(c, 1..n)) THEN "ok" ELSE "values"
+         [] c.mode = "grouped" ->        \* out: <<key, value>> per group
+              IF Len(out) # Cardinality(keys) \/ {out[i][1] : i \in DOMAIN out} # keys THEN "groups"
+              ELSE IF \A i \in DOMAIN out : SameAgg(c, out[i][2], AggOf(c, G(out[i][1]))) THEN "ok" ELSE "values"
+         [] c.mode = "window" ->         \* out: <<rid, value>> per row
+              IF Len(out) # n \/ {out[i][1] : i \in DOMAIN out} # 1..n THEN "row-count"
+              ELSE IF \A i \in DOMAIN out : SameAgg(c, out[i][2], AggOf(c, G(c.rows[out[i][1]][1]))) THEN "ok" ELSE "values"
+
 RECURSIVE Keep(_, _, _)
 Keep(rows, a, i) ==      \* apply slice_head a[i], a[i+1], ... to the sequence of row ids
     IF i > Len(a) THEN rows
@@ -81,14 +177,18 @@ JudgeUnion(c, names, rows, err) ==
 
 Recs == IF Mode = "check" THEN ndJsonDeserialize(IOEnv.VERIF_ARGSPACE) ELSE <<>>
 
-ASSUME Mode = "gen" => /\ \A c \in SliceConfigs : PrintT(ToJson(c))
-                       /\ \A c \in UnionConfigs : PrintT(ToJson(c))
-                       /\ \A c \in JoinConfigs : JoinValid(c) => PrintT(ToJson(c))
+ASSUME Mode = "gen" => /\ ("slices" \in GenVerbs => \A c \in SliceConfigs : PrintT(ToJson(c)))
+                       /\ ("union" \in GenVerbs => \A c \in UnionConfigs : PrintT(ToJson(c)))
+                       /\ ("joinrows" \in GenVerbs => \A c \in JoinConfigs : JoinValid(c) => PrintT(ToJson(c)))
+                       /\ ("win" \in GenVerbs => \A c \in WinConfigs : PrintT(ToJson(c)))
+                       /\ ("agg" \in GenVerbs => \A c \in AggConfigs : PrintT(ToJson(c)))
 ASSUME Mode = "check" =>
     \A i \in DOMAIN Recs :
         LET r == Recs[i] IN
         PrintT(ToJson([i |-> i, verdict |-> IF r.c.verb = "slices" THEN JudgeSlices(r.c, r.out, r.err)
                                             ELSE IF r.c.verb = "joinrows" THEN JudgeJoin(r.c, r.out, r.err)
+                                            ELSE IF r.c.verb = "win" THEN JudgeWin(r.c, r.out, r.err)
+                                            ELSE IF r.c.verb = "agg" THEN JudgeAgg(r.c, r.out, r.err)
                                             ELSE JudgeUnion(r.c, r.names, r.out, r.err)]))
 
 VARIABLE x
